@@ -45,6 +45,20 @@ func normalise(fd protoreflect.FileDescriptor) (*descriptorpb.FileDescriptorProt
 		}
 		return out.Extension[i].GetNumber() < out.Extension[j].GetNumber()
 	})
+	// the order in which messages, enums and services are declared is not part of the descriptor's meaning: the
+	// printer orders them by source line / type / index (sourceElements.Less is not transitive when located and
+	// unlocated elements are mixed), the re-parsed descriptor has them in printed order
+	var byName func(ms []*descriptorpb.DescriptorProto)
+	byName = func(ms []*descriptorpb.DescriptorProto) {
+		sort.SliceStable(ms, func(i, j int) bool { return ms[i].GetName() < ms[j].GetName() })
+		for _, m := range ms {
+			sort.SliceStable(m.EnumType, func(i, j int) bool { return m.EnumType[i].GetName() < m.EnumType[j].GetName() })
+			byName(m.NestedType)
+		}
+	}
+	byName(out.MessageType)
+	sort.SliceStable(out.EnumType, func(i, j int) bool { return out.EnumType[i].GetName() < out.EnumType[j].GetName() })
+	sort.SliceStable(out.Service, func(i, j int) bool { return out.Service[i].GetName() < out.Service[j].GetName() })
 	// json_name: absent means the default derived from the field name (synthetic map entries of compiled files have none)
 	var fill func(ms []*descriptorpb.DescriptorProto)
 	fill = func(ms []*descriptorpb.DescriptorProto) {
@@ -226,10 +240,60 @@ func diffValue(fd protoreflect.FieldDescriptor, va, vb protoreflect.Value, p str
 	return ""
 }
 
-// comments by declaration path (leading / trailing / detached), from the source info.
+// pathKey turns a source-info path into a key by NAMES (the declaration order of messages / enums / services
+// may change across print + parse, see normalise): indices of declarations are replaced by their names.
+func pathKey(fdp *descriptorpb.FileDescriptorProto, path []int32) string {
+	var sb strings.Builder
+	rest := path
+	var msg *descriptorpb.DescriptorProto
+	var enum *descriptorpb.EnumDescriptorProto
+	var svc *descriptorpb.ServiceDescriptorProto
+	take := func(kind, name string) { fmt.Fprintf(&sb, "/%s:%s", kind, name); rest = rest[2:] }
+	for len(rest) >= 2 {
+		f, i := rest[0], int(rest[1])
+		switch {
+		case msg == nil && enum == nil && svc == nil && f == 4 && i < len(fdp.MessageType):
+			msg = fdp.MessageType[i]
+			take("message", msg.GetName())
+		case msg == nil && enum == nil && svc == nil && f == 5 && i < len(fdp.EnumType):
+			enum = fdp.EnumType[i]
+			take("enum", enum.GetName())
+		case msg == nil && enum == nil && svc == nil && f == 6 && i < len(fdp.Service):
+			svc = fdp.Service[i]
+			take("service", svc.GetName())
+		case msg == nil && enum == nil && svc == nil && f == 7 && i < len(fdp.Extension):
+			take("extension", fdp.Extension[i].GetName())
+			return sb.String() + fmt.Sprint(rest)
+		case msg != nil && enum == nil && f == 3 && i < len(msg.NestedType):
+			msg = msg.NestedType[i]
+			take("message", msg.GetName())
+		case msg != nil && enum == nil && f == 4 && i < len(msg.EnumType):
+			enum = msg.EnumType[i]
+			take("enum", enum.GetName())
+		case msg != nil && enum == nil && f == 2 && i < len(msg.Field):
+			take("field", msg.Field[i].GetName())
+			return sb.String() + fmt.Sprint(rest)
+		case msg != nil && enum == nil && f == 8 && i < len(msg.OneofDecl):
+			take("oneof", msg.OneofDecl[i].GetName())
+			return sb.String() + fmt.Sprint(rest)
+		case enum != nil && f == 2 && i < len(enum.Value):
+			take("value", enum.Value[i].GetName())
+			return sb.String() + fmt.Sprint(rest)
+		case svc != nil && f == 2 && i < len(svc.Method):
+			take("method", svc.Method[i].GetName())
+			return sb.String() + fmt.Sprint(rest)
+		default:
+			return sb.String() + fmt.Sprint(rest)
+		}
+	}
+	return sb.String() + fmt.Sprint(rest)
+}
+
+// comments by declaration (leading / detached), from the source info, keyed by names.
 func commentMap(fd protoreflect.FileDescriptor) map[string]string {
 	out := map[string]string{}
-	sci := protodesc.ToFileDescriptorProto(fd).SourceCodeInfo
+	fdp := protodesc.ToFileDescriptorProto(fd)
+	sci := fdp.SourceCodeInfo
 	if sci == nil {
 		return out
 	}
@@ -238,7 +302,7 @@ func commentMap(fd protoreflect.FileDescriptor) map[string]string {
 		if loc.GetLeadingComments() == "" && len(loc.LeadingDetachedComments) == 0 {
 			continue
 		}
-		key := fmt.Sprint(loc.Path)
+		key := pathKey(fdp, loc.Path)
 		out[key] = fmt.Sprintf("L%q D%q", loc.GetLeadingComments(), loc.LeadingDetachedComments)
 	}
 	return out
@@ -313,7 +377,12 @@ func roundTripAll(ctx context.Context, fd protoreflect.FileDescriptor, siblings 
 	files[fd.Path()] = txt1
 	parsed, err := tool.ParseProto(ctx, files, []string{fd.Path()})
 	if err != nil {
-		return txt1, nil, "", []rtFailure{{Sig: "printed text does not parse/link: " + failureClass(err.Error()), Clause: "parsing and linking the printed text yields a descriptor", Got: trim(err.Error(), 300)}}
+		class := failureClass(err.Error())
+		if strings.Contains(err.Error(), "camel-case name") {
+			// enum options that differ only in case: the compiler accepts them, no proto parser does (NOTICE-4)
+			class = "camel-case name conflict of enum values (options that differ only in case)"
+		}
+		return txt1, nil, "", []rtFailure{{Sig: "printed text does not parse/link: " + class, Clause: "parsing and linking the printed text yields a descriptor", Got: trim(err.Error(), 300)}}
 	}
 	for _, f := range parsed {
 		if f.Path() == fd.Path() {
@@ -339,7 +408,7 @@ func roundTripAll(ctx context.Context, fd protoreflect.FileDescriptor, siblings 
 	}
 	c1, c2 := commentMap(fd), commentMap(fd2)
 	for k, v := range c1 {
-		if k == "[]" || k == "[12]" || k == "[2]" { // file-level / syntax / package comments: the generated-by line lives here
+		if k == "[]" || k == "[12]" || k == "[2]" || k == "[2 0]" { // file-level / syntax / package comments: the generated-by line lives here
 			continue
 		}
 		if c2[k] != v {
